@@ -188,7 +188,9 @@ def run(ck):
           "representatives / re-encoding / copying; agreement, contributory <=> not small order, alias independence, consumed ephemeral secrets", workers=8)
     ck.mc("MC_Xproto", "MC_Xproto_neg.cfg", note="kept counterexample: a contributory test that only looks for u = 0 on the wire", workers=4, expect_violation=True)
     if not quick:
-        ck.mc("MC_Xproto", "MC_Xproto_29_all.cfg", note="sessions to 3 steps with ALL 256 bytes as the adversary's alphabet", workers=8)
+        ck.mc("MC_Xproto", "MC_Xproto_29_all.cfg", note="sessions to 3 steps with ALL 256 bytes as the adversary's alphabet", workers=8, timeout=3000)
+        ck.mc("MC_Xproto", "MC_Xproto_101.cfg", note="sessions to 4 steps on the order-88 curve (l' = 11)", workers=8, timeout=3000)
+        ck.mc("MC_Xproto", "MC_Xproto_109.cfg", note="sessions to 4 steps on the order-104 curve (l' = 13)", workers=8, timeout=3000)
     ops = gen(ck.rng, quick)
     for sc in x_histories(ck, 60 if quick else 600):
         ops += sc
